@@ -9,7 +9,7 @@
     parse_gen gen_injective supported_accepted unsupported_rejected no_field_dropped
     grammar_facts tables_agree operators_parenthesised parse_gen_needs_support
     int_attribute_rejected dict_unpack_rejected type_params_dropped_witness
-    parseS_genS_partial genS_injective_partial global_rejected handler_name_rejected
+    parseS_genS genS_injective global_rejected handler_name_rejected
 -/
 import Genshi.Lemmas.PyParseS5
 namespace Genshi.Props.C13
@@ -160,30 +160,27 @@ theorem type_params_dropped_witness :
 /-- The module bodies on which faithful regeneration of *statements* is proved: expression
     statements, (augmented) assignments, `del`, `return`, `pass`, `break`, `continue`, `assert`,
     `raise`, `import`, `from m import`, `if`/`while`/`for` with `else`, `with`,
-    `try`/`except`/`else`/`finally`, decorated `def` and `class`, nested to any depth, all embedded
-    expressions `Supported`.  Not included (the gap of the `_partial` theorem): parameter and
-    return annotations are limited to `-> ret` (annotated *parameters* are not covered); and —
-    outside the property, because the regenerated text is not Python and is rejected — `global`,
-    `except E as name`, `from . import x` (see `global_rejected`, `handler_name_rejected`), PEP 695
-    type parameters (known finding). -/
+    `try`/`except`/`else`/`finally`, decorated `def` (all parameter kinds, annotations, defaults,
+    `-> ret`) and `class` (bases, keywords), nested to any depth, all embedded expressions
+    `Supported`.  Outside — because the regenerated text is not Python and is rejected, which the
+    property allows — are `global`, `except E as name`, `from . import x` (see `global_rejected`,
+    `handler_name_rejected`); PEP 695 type parameters are the known finding C13-type-params. -/
 def SupportedS (ss : List PyStmt) : Prop := WFSL ss ∧ noHandlers ss = true
 
-/-- **Faithful regeneration (statements), partial.**  For every supported module body — any
-    number of statements, any nesting depth — the generator does not raise and reading the lines it
-    writes (indentation + tokens) with the statement reader `pyParseS` gives back exactly the
-    statements it was given: no statement, clause, block boundary, decorator, parameter, base class,
-    target or embedded expression is lost, moved to another block or changed.
-    Gap: annotated parameters (`def f(a: int)`) are not covered by the proof (they are covered by
-    the correspondence and the oracle only). -/
-theorem parseS_genS_partial (ss : List PyStmt) (h : SupportedS ss) :
+/-- **Faithful regeneration (statements).**  For every supported module body — any number of
+    statements, any nesting depth — the generator does not raise and reading the lines it writes
+    (indentation + tokens) with the statement reader `pyParseS` gives back exactly the statements
+    it was given: no statement, clause, block boundary, decorator, parameter, annotation, base
+    class, target, imported name or embedded expression is lost, moved to another block or changed. -/
+theorem parseS_genS (ss : List PyStmt) (h : SupportedS ss) :
     ∃ lines, genModule ss = some lines ∧ pyParseS lines = some ss :=
   ⟨genBody 0 ss, by simp [genModule, wfsl_genOk ss h.1], parseS_genBody ss h.1 h.2⟩
 
 /-- two different supported module bodies are never regenerated as the same lines -/
-theorem genS_injective_partial (a b : List PyStmt) (ha : SupportedS a) (hb : SupportedS b)
+theorem genS_injective (a b : List PyStmt) (ha : SupportedS a) (hb : SupportedS b)
     (h : genModule a = genModule b) : a = b := by
-  obtain ⟨la, ga, pa⟩ := parseS_genS_partial a ha
-  obtain ⟨lb, gb, pb⟩ := parseS_genS_partial b hb
+  obtain ⟨la, ga, pa⟩ := parseS_genS a ha
+  obtain ⟨lb, gb, pb⟩ := parseS_genS b hb
   rw [ga, gb] at h
   cases h
   rw [pa] at pb
@@ -198,7 +195,7 @@ theorem handler_name_rejected :
 
 /-- ```
     @d
-    def f(p, /, q=2, *r, s, **t) -> u:
+    def f(p: u, /, q: u = 2, *r: u, s, **t) -> u:
         for i in q:
             if i: continue
             else: break
@@ -217,7 +214,8 @@ theorem handler_name_rejected :
     del x, y[2]
     ``` -/
 def exModule : List PyStmt :=
-  [ .functionDef ['f'] [.param ['p'] none none] [.param ['q'] none (some two)] (some (.param ['r'] none none))
+  [ .functionDef ['f'] [.param ['p'] (some (.name ['u'])) none] [.param ['q'] (some (.name ['u'])) (some two)]
+      (some (.param ['r'] (some (.name ['u'])) none))
       [.param ['s'] none none] (some (.param ['t'] none none))
       [ .for_ (.name ['i']) (.name ['q']) [.if_ (.name ['i']) [.continue_] [.break_]] [],
         .try_ [.pass_]
@@ -284,7 +282,7 @@ theorem exModule_supported : SupportedS exModule := by
       exact ⟨by decide, rfl, h2.1, Or.inl rfl⟩
 
 example : ∃ lines, genModule exModule = some lines ∧ pyParseS lines = some exModule :=
-  parseS_genS_partial exModule exModule_supported
+  parseS_genS exModule exModule_supported
 
 example : pyParseS (genBody 0 exModule) = some exModule := rfl
 example : (genBody 0 exModule).length = 26 := rfl
